@@ -125,7 +125,7 @@ Proof.
   - rewrite balanced_eq in H. cbv zeta in H. set (ts := a :: b :: rest) in *.
     destruct (balanced f (firstn _ ts)) as [l|] eqn:El; [|discriminate].
     destruct (balanced f (skipn _ ts)) as [r|] eqn:Er; [|discriminate].
-    inversion H; subst. simpl. rewrite (IH _ _ El), (IH _ _ Er). rewrite <- flat_map_app.
+    inversion H; subst. simpl. rewrite (IH _ _ El), (IH _ _ Er). rewrite <- (flat_map_app leaves).
     rewrite firstn_skipn. reflexivity.
 Qed.
 
@@ -141,7 +141,7 @@ Qed.
 
 Lemma partition_In {A} (f : A -> bool) l t s x : partition f l = (t, s) -> In x (t ++ s) -> In x l.
 Proof.
-  intros H Hin. eapply Permutation_in; [apply Permutation_sym, partition_perm; eauto|auto].
+  intros H Hin. eapply Permutation_in; [apply Permutation_sym; eapply partition_perm; exact H|exact Hin].
 Qed.
 
 Lemma flat_map_perm {A B} (g : A -> list B) l l' : Permutation l l' -> Permutation (flat_map g l) (flat_map g l').
@@ -169,15 +169,15 @@ Section Step.
     apply Forall_app in HPts. destruct HPts as (HPt & HPs).
     destruct t as [|t0 t'].
     - inversion H; subst. simpl in Hperm. split.
-      + intros ->. apply Permutation_sym, Permutation_nil in Hperm. auto.
+      + intros ->. apply Permutation_sym, Permutation_nil in Hperm. congruence.
       + split; auto. apply flat_map_perm. apply Permutation_sym. exact Hperm.
     - destruct (balanced (length (t0 :: t')) (t0 :: t')) as [nt|] eqn:Eb; [|discriminate].
       inversion H; subst. split; [destruct s; discriminate|]. split.
       + apply Forall_app. split; auto. constructor; auto. apply P_init.
-        eapply balanced_ind; eauto.
+        eapply (balanced_ind P P_node); [exact HPt|exact Eb].
       + rewrite flat_map_app. simpl. rewrite app_nil_r, leaves_init_vars.
         rewrite (balanced_leaves _ _ _ Eb).
-        eapply Permutation_trans; [apply Permutation_app_comm|]. rewrite <- flat_map_app.
+        eapply Permutation_trans; [apply Permutation_app_comm|]. rewrite <- (flat_map_app leaves).
         apply flat_map_perm. apply Permutation_sym. exact Hperm.
   Qed.
 
@@ -316,7 +316,7 @@ Proof.
     { intros x. rewrite vs_union_In, Ha. tauto. }
     destruct (IHl Hl Sl (vs_union a my) _ Ha') as (Cl & Nl).
     destruct (IHr Hr Sr (vs_union a my) _ Ha') as (Cr & Nr).
-    rewrite !tvars_gen. repeat split; auto; try apply Hmy.
+    rewrite !tvars_gen. split; [split; [exact Hmy|split; assumption]|split; [|split; assumption]].
     unfold my, vs_minus, vs_inter. apply NoDup_filter, NoDup_filter. apply sorted_NoDup, vsorted_get; auto.
 Qed.
 
@@ -335,11 +335,9 @@ Proof.
     + intros x. rewrite !in_app_iff, Il, Ir, tvars_node, Hc.
       split.
       * intros [H|[H|H]]; tauto.
-      * intros ([H|H] & Hn).
-        -- destruct (in_dec Nat.eq_dec x (tvars r)); [left; tauto|right; left; split; auto].
-           intros [Ha|Hin]; [tauto|]. apply Hc in Hin. tauto.
-        -- destruct (in_dec Nat.eq_dec x (tvars l)); [left; tauto|right; right; split; auto].
-           intros [Ha|Hin]; [tauto|]. apply Hc in Hin. tauto.
+      * intros (Hor & Hn).
+        destruct (in_dec Nat.eq_dec x (tvars l)) as [Hl|Hl];
+          destruct (in_dec Nat.eq_dec x (tvars r)) as [Hr|Hr]; tauto.
 Qed.
 
 (* ---------- from_dtree ---------- *)
